@@ -3,14 +3,14 @@ import re
 from vlib import Case, hx, ALLTYPES, STRING, BOOL, rand_array, rand_elem, obj_line, name_hex
 from checks import sbdfgen as G
 
-LEVEL = "fault_enumeration"
+LEVEL = "proof"
 LEAKS_MATTER = True
 RULE = ("phase 1 runs each API scenario (build, encode, write, read, decode, copy, lookup) once and counts its allocation attempts "
         "N; phase 2 re-runs it once per k < N with the k-th attempt returning NULL (ASan+UBSan build, allocator redirected). "
         "Checked per (scenario, k): no sanitizer report, the call during which the failure hit returns non-OK, nothing stays "
         "allocated after releasing what was built, containers mutated by the failing call are as before the call, objects built "
         "earlier dump as in phase 1; distinct = (scenario, k)")
-TRUSTED = ["harness allocator redirection (-Dmalloc=vf_malloc ...): every allocation of the library goes through it"]
+TRUSTED = ["L2 ledger model coq/Mem.v (objects, plain value arrays): theorems for every failure oracle; the other API calls are covered by the fault enumeration only", "harness allocator redirection (-Dmalloc=vf_malloc ...): every allocation of the library goes through it"]
 ASSUMES = ["one allocation failure per run", "allocation order is deterministic"]
 
 DUMP_AFTER = {"mdadd": ("mddump", 1), "mdaddstr": ("mddump", 1), "mdaddint": ("mddump", 1), "cmset": ("mddump", 1), "mdcopy": ("mddump", 2),
@@ -107,11 +107,20 @@ def phase2_case(cid, S, k, base):
 
 
 def cases(rng, tier):
+    from checks.C12 import ledger_case
+    for i in range({"quick": 150, "thorough": 3000, "search": 80}[tier]):
+        c = ledger_case("l%d" % i, rng, True)
+        c.oracle = None           # with injected failures handles may be null: only the comparison with the ledger model counts
+        yield c
     n = {"quick": 14, "thorough": 200, "search": 8}[tier]
     for i in range(n):
         S, kind = scenario(rng)
         lines = ["allocs"] + S + ["allocs"]
         yield Case("s%d" % i, lines, compare=False, nontrivial=True, meta={"scenario": S, "dist": {"phase": 1, "kind": kind}})
+
+
+def classify_diff(case, diffs):
+    return "violation"
 
 
 def followup(cases_, results, rng, tier):
